@@ -250,6 +250,14 @@ def run_lines(cmd, lines, timeout=600, jobs=NCPU, cwd=None, env=None, per_job=20
     n = len(lines)
     if n == 0:
         return []
+    # time limits are stated for an otherwise idle machine: stretch them when it is busy
+    # (other checks, builds or tests running at the same time), so that load alone never
+    # turns into a "timeout" outcome
+    try:
+        busy = os.getloadavg()[0] / NCPU
+    except OSError:
+        busy = 1.0
+    timeout = timeout * min(12.0, max(1.0, busy))
     jobs = max(1, min(jobs, (n + per_job - 1) // per_job))
     size = (n + jobs - 1) // jobs
     chunks = [lines[i:i + size] for i in range(0, n, size)]
